@@ -173,3 +173,130 @@ func VP_C06_nbtfield() {
 	}
 	vp.Cover("end")
 }
+
+// vpWriteBulk / vpReadBulk: as vpCheckWrite / vpCheckRead with whole-slice
+// comparisons (one term per comparison instead of one harness loop iteration
+// per byte; these run on up to 70000 bytes).
+func vpWriteBulk(enc FieldEncoder, ref []byte) {
+	var w bytes.Buffer
+	n, err := enc.WriteTo(&w)
+	vp.Assert(err == nil, "write err==nil")
+	vp.Assert(n == int64(len(ref)), "write n==layout length")
+	vp.Assert(string(w.Bytes()) == string(ref), "wire bytes==reference layout")
+}
+
+func vpReadBulk(dec FieldDecoder, ref []byte) {
+	stream := append(append([]byte{}, ref...), 0x5a, 0xa5)
+	if vp.Choice(2) == 0 {
+		r := bytes.NewReader(stream)
+		n, err := dec.ReadFrom(r)
+		vp.Assert(err == nil, "read err==nil")
+		vp.Assert(n == int64(len(ref)), "read n==layout length")
+		vp.Assert(r.Len() == 2, "reader advanced by exactly n")
+	} else {
+		r := &vpPlainReader{b: stream, chunk: 1000}
+		n, err := dec.ReadFrom(r)
+		vp.Assert(err == nil, "read err==nil")
+		vp.Assert(n == int64(len(ref)), "read n==layout length")
+		vp.Assert(r.pos == len(ref), "reader advanced by exactly n")
+	}
+}
+
+// length-prefixed values at the sizes where the prefix changes width or an
+// implementation might switch strategy (127/128/129, 300, 16383/16384, 32767,
+// 70000): contents arbitrary, whole values compared; destinations fresh or
+// holding a shorter value with spare capacity.
+func VP_C06_sizes() {
+	sizes := []int{127, 128, 129, 300, 16383, 16384, 32767, 70000}
+	if vp.Tier() == 0 {
+		sizes = []int{127, 128, 300, 16384, 70000}
+	}
+	n := sizes[vp.Choice(len(sizes))]
+	kind := vp.Choice(5)
+	vp.SizeBound(8*n + 64)
+	vp.Unwind(8*n + 64)
+	vp.MaxSteps(600000000)
+	switch kind {
+	case 0, 1:
+		content := vp.Bytes(n)
+		ref := append(vpVarIntRef(int32(n)), content...)
+		if kind == 0 {
+			v := String(content)
+			vpWriteBulk(v, ref)
+			d := String(vpPrior(3))
+			vpReadBulk(&d, ref)
+			vp.Assert(len(d) == n && d == v, "round trip value")
+		} else {
+			vpWriteBulk(ByteArray(content), ref)
+			var d ByteArray
+			if vp.Choice(2) == 1 {
+				d = make(ByteArray, n+5)[:n/2]
+			}
+			vpReadBulk(&d, ref)
+			vp.Assert(len(d) == n && string(d) == string(content), "round trip value")
+		}
+	case 2:
+		if n > 16384 {
+			n = 16384
+		}
+		if vp.Tier() == 0 && n > 300 {
+			n = 300 // each element goes through the reflective element codec
+		}
+		src := make([]VarInt, n)
+		ref := vpVarIntRef(int32(n))
+		for i := range src {
+			// one-, two- and five-byte elements, the boundary ones arbitrary
+			switch {
+			case i == 128 || i == n-1:
+				src[i] = VarInt(vp.Int32())
+			case i%3 == 0:
+				src[i] = VarInt(i)
+			default:
+				src[i] = VarInt(-i)
+			}
+			ref = append(ref, vpVarIntRef(int32(src[i]))...)
+		}
+		vpWriteBulk(Ary[VarInt]{Ary: src}, ref)
+		var dst []VarInt
+		if vp.Choice(2) == 1 {
+			dst = make([]VarInt, 3, n+7)
+		}
+		vpReadBulk(Ary[VarInt]{Ary: &dst}, ref)
+		vp.Assert(len(dst) == n, "Ary round trip length (whatever the destination held before)")
+		for i := 0; i < n && i < len(dst); i++ {
+			vp.Assert(dst[i] == src[i], "Ary round trip value")
+		}
+	case 3:
+		if n > 300 {
+			n = 300
+		}
+		src := make(BitSet, n)
+		ref := vpVarIntRef(int32(n))
+		for i := range src {
+			src[i] = int64(vp.Uint64())
+			ref = append(ref, vpBE(uint64(src[i]), 8)...)
+		}
+		vpWriteBulk(src, ref)
+		var dst BitSet
+		if vp.Choice(2) == 1 {
+			dst = make(BitSet, 2, n+1)
+		}
+		vpReadBulk(&dst, ref)
+		vp.Assert(len(dst) == n, "round trip length")
+		for i := 0; i < n && i < len(dst); i++ {
+			vp.Assert(dst[i] == src[i], "round trip value")
+		}
+	default:
+		// strings of exactly this many bytes inside a Tuple followed by another field
+		content := vp.Bytes(n)
+		s, tail := String(content), Int(vp.Int32())
+		ref := append(vpVarIntRef(int32(n)), content...)
+		ref = append(ref, vpBE(uint64(uint32(tail)), 4)...)
+		vpWriteBulk(Tuple{s, tail}, ref)
+		var ds String
+		var dt Int
+		vpReadBulk(Tuple{&ds, &dt}, ref)
+		vp.Assert(ds == s && dt == tail, "round trip value")
+	}
+	vp.Cover("end")
+}
